@@ -171,7 +171,7 @@ def classify(results):
             n_prop += 1
             if st == "FAILURE":
                 prop_fail.append(r)
-        elif "unwinding assertion" in d or "recursion unwinding" in d:
+        elif "unwinding assertion" in d or "recursion unwinding" in d or d.startswith("INTERNAL"):
             if st == "FAILURE":
                 unwind_fail.append(r)
         else:
